@@ -196,11 +196,34 @@ def parse_assumptions(out):
 
 
 def eval_shards(outdir, jobs=16, timeout=3000):
-    # one evaluation phase at a time per machine: concurrent checks queue here
+    # at most three evaluation phases at a time per machine (8 coqc each):
+    # concurrent checks queue here instead of oversubscribing the cores
     import fcntl
-    with open(os.path.join(VERIF, ".eval.lock"), "w") as lk:
-        fcntl.flock(lk, fcntl.LOCK_EX)
-        return _eval_shards(outdir, jobs, timeout)
+    while True:
+        for slot in range(3):
+            lk = open(os.path.join(VERIF, ".eval.lock.%d" % slot), "w")
+            try:
+                fcntl.flock(lk, fcntl.LOCK_EX | fcntl.LOCK_NB)
+            except OSError:
+                lk.close()
+                continue
+            try:
+                # alone on the machine: use all cores
+                return _eval_shards(outdir, jobs if slot == 0 and _alone() else 8, timeout)
+            finally:
+                lk.close()
+        time.sleep(0.5)
+
+
+def _alone():
+    import fcntl
+    for slot in (1, 2):
+        try:
+            with open(os.path.join(VERIF, ".eval.lock.%d" % slot), "w") as lk:
+                fcntl.flock(lk, fcntl.LOCK_EX | fcntl.LOCK_NB)
+        except OSError:
+            return False
+    return True
 
 
 def _eval_shards(outdir, jobs=16, timeout=3000):
@@ -235,7 +258,13 @@ def _eval_shards(outdir, jobs=16, timeout=3000):
         if rc != 0 or not m:
             errors.append((k, out[-2000:]))
             continue
-        for a, b in re.findall(r"\((\d+)\s*,\s*(\d+)\)", m.group(1)):
+        body = re.sub(r"%[A-Za-z_]+", "", m.group(1))
+        pairs = re.findall(r"\(\s*(\d+)\s*,\s*(\d+)\s*\)", body)
+        if not pairs and re.sub(r"\s+", "", body) not in ("[]", "nil"):
+            # a non-empty failure list we cannot read is never taken for "no failures"
+            errors.append((k, "unparsable failure list: " + m.group(1)[:500]))
+            continue
+        for a, b in pairs:
             failures.append((k, int(a), int(b)))
     return failures, errors
 
